@@ -7,10 +7,11 @@ of the combined grid, combined interpolant = function at every point of the comb
 from .. import sx
 from . import dimwise as dw
 from . import c06
+from . import _c06_gen
 
 ASSUMPTIONS = c06.ASSUMPTIONS + [
-    'version-3 rounding sv/dim - int(sv/dim) > d/dim is decided in binary64: the model takes the set of (sv,d) on which binary64 and '
-    'exact arithmetic differ as an input computed by the harness with the same Python expression',
+    'version-3 rounding sv/dim - int(sv/dim) > d/dim is decided in binary64: for dim <= 6 and sv <= 64 the model decides with Coq '
+    'primitive floats (table computed by Coq, C03_version3_rounding_is_binary64_bounded); beyond that the decision is the exact one',
     'the caches max_level_dict / subtraction_value_cache are not modelled (emptied in every refinement_postprocessing); the harness '
     'queries every (dimension, level) and every component after each step, so stale cache entries would show up as differences',
     'interpolation at the combined grid points is checked on the implementation only (tolerance 1e-9 * (1+|f|))',
@@ -47,7 +48,10 @@ def compare_interpolation(chk, cases, info, verbose=False):
 
 
 def run(chk):
-    chk.coq_obligations()
+    # source-derived model (shared with C06): modify_according_to_levelvec / get_max_level decide the stripes
+    gen_info = _c06_gen.regenerate(chk)
+    chk.coq_obligations(extra_props=_c06_gen.EXTRA_PROPS)
+    gen_problem = _c06_gen.diagnose(chk, gen_info)
     n = chk.n(100, 1500)
     nd = chk.n(600, 4000)
     ni = chk.n(700, 6000)
@@ -99,6 +103,7 @@ def run(chk):
                      'huge boxes and benefit magnitudes 2^-60..2^30, further performSpatiallyAdaptiv legs on the same object, a second object alive in the '
                      'process, d = 1, a few trees with 200-300 intervals (histogram keys axis:*)',
                      samples)
+    _c06_gen.finish(chk, gen_info, gen_problem)
 
 
 def replay(chk, rep):
